@@ -254,3 +254,32 @@ func verif_http2http_Rewrite(r *httputil.ProxyRequest) {
 	}
 	verif.Ensures(out.Method == method0 && out.URL.Path == path0 && out.URL.RawQuery == query0 && out.Body == body0, "method_path_query_and_body_untouched")
 }
+
+// https2http plugin, the Rewrite hook (C02 "has the user's address appended to
+// the forwarded-for chain"): the chain the request arrived with is carried over
+// to the outgoing request before the proxy appends its own entry
+// (SetXForwarded extends what it finds, and it finds nothing unless it was
+// carried over: the reverse proxy strips the header from the outgoing copy);
+// the backend is addressed over plain http at the local address and the Host is
+// replaced exactly when a rewrite is configured.
+//
+//verif:contract ~/pkg/plugin/client.NewHTTPS2HTTPPlugin$1
+//verif:props C02
+//verif:kinds post,pre
+func verif_https2http_Rewrite(r *httputil.ProxyRequest) {
+	p := verif.FreeVar[*HTTPS2HTTPPlugin]("p")
+	verif.Requires(p.opts != nil && r.In != nil && r.Out != nil && r.In.Header != nil && r.Out.Header != nil && r.Out.URL != nil, "proxy_request_of_the_reverse_proxy")
+	out := r.Out
+	xff, host0 := r.In.Header["X-Forwarded-For"], out.Host
+	rewrite, local := p.opts.HostHeaderRewrite, p.opts.LocalAddr
+	verif.ResetEvents()
+	verif.CallTarget(r)
+	const evHdr, evFwd = "mapset:H.net.http.Request.Header", "ProxyRequest).SetXForwarded"
+	verif.Ensures(verif.NthArg[string](evHdr, 0, 1) == "X-Forwarded-For" && verif.Same(verif.NthArg[[]string](evHdr, 0, 2), xff) && verif.CalledBefore(evHdr, evFwd), "forwarded_for_chain_carried_over_before_it_is_extended")
+	verif.Ensures(out.URL.Scheme == "http" && out.URL.Host == local, "backend_addressed_over_plain_http_at_the_local_address")
+	if rewrite != "" {
+		verif.Ensures(out.Host == rewrite, "host_rewritten_to_the_configured_value")
+	} else {
+		verif.Ensures(out.Host == host0, "host_kept_without_a_configured_rewrite")
+	}
+}
